@@ -3,7 +3,7 @@
 # Copies /repo's working tree to a scratch dir outside /repo and /verif, applies the patch there, runs the command
 # with VERIF_REPO pointing at the copy, then removes the copy. /repo itself is never touched.
 set -u
-patch="$1"; shift
+patch="$(realpath "$1")"; shift
 [ "$1" = "--" ] && shift
 scratch="$(mktemp -d /tmp/vfmut.XXXXXX)"
 trap 'rm -rf "$scratch"' EXIT
